@@ -162,6 +162,7 @@ func (s *Summary) SortReports() {
 			cmp.Compare(a.Problem.Reporter, b.Problem.Reporter),
 			cmp.Compare(a.Problem.Summary, b.Problem.Summary),
 			cmpDiagnostics(a.Problem.Diagnostics, b.Problem.Diagnostics),
+			cmp.Compare(a.Problem.Details, b.Problem.Details),
 		)
 	})
 }
@@ -239,17 +240,12 @@ func cmpDiags(a, b diags.Diagnostic) int {
 }
 
 func cmpDiagnostics(sa, sb []diags.Diagnostic) int {
-	if len(sa) == 0 {
-		return -1
-	}
-	if len(sb) == 0 {
-		return 1
-	}
-
 	slices.SortStableFunc(sa, cmpDiags)
 	slices.SortStableFunc(sb, cmpDiags)
 
-	return cmpDiags(sa[0], sb[0])
+	// Compare all diagnostics, not just the first one, so that reports that only
+	// differ in later diagnostics don't keep the order they were submitted in.
+	return slices.CompareFunc(sa, sb, cmpDiags)
 }
 
 func isSameDiagnostics(sa, sb []diags.Diagnostic) bool {
